@@ -25,6 +25,8 @@ def configs(tier):
         ('2proc/imap', 2, JI, S(1) + ['close', 'join'], {}),
         ('2proc/imap/consume', 2, JI, S(1) + ['wait:0', 'close', 'join'], {}),
         ('2proc/map+apply', 2, JM + J1, S(2) + ['close', 'join'], {}),
+        ('2proc/map-failing-parts', 2, [('map', 'boom', [1, 2])],
+         S(1) + ['close', 'join'], {}),
         ('quota1/2jobs', 2, J2, S(2) + ['close', 'join'],
          dict(maxtasksperchild=1)),
         ('quota1/1proc/2jobs', 1, J2, S(2) + ['close', 'join'],
@@ -40,7 +42,8 @@ def configs(tier):
         big = len(jobs) >= 2 and procs >= 2
         b = (2 if not T else 3)
         out.append((dict(name=name, procs=procs, jobs=jobs, script=script,
-                         pool=pk, oracle='c07'), b,
+                         pool=pk, oracle='c07',
+                         expand_known='failing' in name), b,
                     20000 if not T else 60000))
     for name, procs, jobs, script in (
             ('nothreads/2proc/2jobs', 2, J2,
